@@ -412,7 +412,9 @@ class StmtMixin:
             except ContinueEx:
                 pass
             nxt = smt.Add(i, smt.IntC(1)) if is_for else None
-            self.oblige('inv-step/%s' % tag, 'inv-step', inv(nxt, 'step'), tag)
+            # an invariant that is itself a clause of the property is a top-level obligation
+            self.oblige('inv-step/%s' % tag, 'site' if spec.get('top_level') else 'inv-step',
+                        inv(nxt, 'step'), tag)
             if spec.get('decreases') is not None and not is_for:
                 pass
             raise PathEnd('loop body cut at ' + tag)
